@@ -83,7 +83,7 @@ def spec_from_json(x):
 def run_case_impl(case: ProdCase, plan) -> None:
     """`plan(impl, case)` issues the queries adaptively through `ask`"""
     from prod_impl import ProdImpl
-    impl = ProdImpl(case.tz, case.seed)
+    impl = ProdImpl(case.tz, case.seed, budget_s=case.meta.get('watchdog_s', 10.0))
     try:
         for pid, sp in case.specs.items():
             case.defs[pid] = impl.define(pid, sp)
@@ -107,7 +107,7 @@ def run_case_impl(case: ProdCase, plan) -> None:
                 # the first query failed: which `interval(None, ..)` nodes were anchored by it is an
                 # implementation detail; do not query this object again
                 dead.add(pid)
-            if r == 'err DIVERGED' and not impl.risky.get(pid):
+            if r == 'err DIVERGED' and not impl.risky.get(pid) and not case.meta.get('keep_diverged'):
                 # a bounded but very expensive search (e.g. an unsatisfiable group filter: up to 99 999 member
                 # queries) was cut off by the watchdog: inconclusive, not compared with the model
                 case.meta['inconclusive'] = case.meta.get('inconclusive', 0) + 1
@@ -180,6 +180,7 @@ def make_case(pid: str, seed: int, tier: str) -> ProdCase:
     if pid in ('C04', 'C05', 'C06', 'C13') and zc.trans and rnd.random() < 0.6:
         # directed: a dense grid of reference instants (15 min apart, +-1 ns) around one clock change
         t, a, b = rnd.choice(zc.trans)
+        case.meta['trans'] = (t, a, b)
         case.meta['grid'] = [t * NS_S + k * 15 * NS_MIN + e for k in range(-14, 15) for e in (0,)] + \
                             [t * NS_S + e for e in (-1, 1)]
     if pid == 'C04' and rnd.random() < 0.25:
@@ -208,11 +209,50 @@ def make_case(pid: str, seed: int, tier: str) -> ProdCase:
             case.specs[i + 1] = ('time', gen_tod(rnd, zc), rnd.choice(SKIPPED), rnd.choice(REPEATED), None)
         steps = 8
         refs = [r for r in refs if True]
+    elif pid == 'C13' and 'grid' in case.meta and rnd.random() < 0.7:
+        # directed: the bound's wall clock time lies inside the skipped / repeated interval of the clock change the
+        # grid of reference instants surrounds; a dense underlying trigger has occurrences all around it
+        t, a, b = case.meta['trans']
+        lo, hi = (t + a, t + b) if b > a else (t + b, t + a)
+        for i in range(3):
+            x = rnd.choice([(lo + hi) // 2, lo, hi - 1, lo + (hi - lo) // 4, hi, lo - 1])
+            tod = (x % 86400) * NS_S
+            base = ('interval', (t - 86400) * NS_S + rnd.choice([0, 1, 7]) * NS_MIN, rnd.choice([10, 15, 25]) * NS_MIN, None)
+            k = rnd.choice(['earliest', 'latest'])
+            case.specs[i + 1] = (k, tod, rnd.choice(SKIPPED), rnd.choice(REPEATED), None, base)
+        steps = 3
     elif pid == 'C13':
         for i in range(2):
             base = gen_producer(rnd, zc, ref0, rnd.randint(1, 2), filters=0.2, ops=('group',))
             k = rnd.choice(['offset', 'earliest', 'latest', 'jitter'])
             case.specs[i + 1] = gen_producer(rnd, zc, ref0, 2, ops=(k,), filters=0.0) if False else wrap_op(rnd, zc, k, base)
+    elif pid == 'C16':
+        # unsatisfiable / contradictory filters at every level, plus satisfiable controls
+        unsat = [('all', [('dow', [1]), ('dow', [2])]), ('all', [('dom', [31]), ('moy', [2])]),
+                 ('not', ('dow', [1, 2, 3, 4, 5, 6, 7])), ('time', 12 * NS_HOUR, 12 * NS_HOUR),
+                 ('all', [('moy', [4]), ('dom', [31])])]
+        u = rnd.choice(unsat)
+        tod = gen_tod(rnd, zc)
+        shapes = [
+            ('time', tod, rnd.choice(SKIPPED), rnd.choice(REPEATED), u),
+            ('time', tod, rnd.choice(SKIPPED), rnd.choice(REPEATED), ('time', (tod + NS_HOUR) % NS_DAY, None)
+             if tod + NS_HOUR < NS_DAY else u),
+            ('interval', ref0, make_exact(rnd.choice([NS_HOUR, 6 * NS_HOUR, NS_DAY, 7 * NS_DAY])), u),
+            ('group', u, [('time', tod, 'after', 'earlier', None)]),
+            ('offset', NS_HOUR, u, ('time', tod, 'after', 'earlier', None)),
+            ('group', None, [('time', tod, 'skip', 'skip', u), ('interval', ref0, NS_HOUR, None)]),
+            ('jitter', 0, 10 * NS_S, u, ('interval', ref0, NS_DAY, None)),
+            gen_producer(rnd, zc, ref0, rnd.randint(1, 3)),
+        ]
+        rnd.shuffle(shapes)
+        for i, sp in enumerate(shapes[:3]):
+            case.specs[i + 1] = sp
+        steps = 1
+        refs = refs[:1]
+        case.meta['budget_s'] = 120.0
+        case.meta['watchdog_s'] = 90.0
+        case.meta['keep_diverged'] = True
+        case.meta.pop('grid', None)
     elif pid == 'C14':
         for i in range(2):
             base = gen_base(rnd, zc, ref0, filters=0.2)
@@ -315,6 +355,53 @@ class ProdProp:
                 return None if m is None else f'{m} [zone {case.tz}, trigger {prod_sx(spec)[:160]}]'
         return None
 
+    def case_oracle(self, case: ProdCase) -> list[tuple[str, str | None, dict]]:
+        """oracles over a whole chain of queries -> (description, known-finding id, replay object)"""
+        out: list[tuple[str, str | None, dict]] = []
+        if self.pid != 'C14':
+            return out
+        from oracle_ops import attribute_chain
+        for pid, spec in case.specs.items():
+            if spec[0] not in ('offset', 'jitter') or spec[2 if spec[0] == 'offset' else 3] is not None:
+                continue
+            if not prod_kinds(spec[3] if spec[0] == 'offset' else spec[4]) <= {'time', 'interval', 'group'}:
+                continue
+            # the chains: consecutive queries where each reference instant is the previous result
+            chain: list[int] = []
+            chains: list[list[int]] = []
+            prev = None
+            for (p2, dt), res in zip(case.queries, case.impl):
+                if p2 != pid or not res.startswith('ok'):
+                    continue
+                v = int(res.split()[1])
+                if prev is not None and dt == prev:
+                    chain.append(v)
+                else:
+                    if len(chain) > 1:
+                        chains.append(chain)
+                    chain = [v]
+                prev = v
+            if len(chain) > 1:
+                chains.append(chain)
+            for ch in chains:
+                att = attribute_chain(case, pid, ch)
+                if not att:
+                    continue
+                seen: dict[int, int] = {}
+                for r, n in att:
+                    if n in seen:
+                        sig = 'F5' if spec[0] == 'jitter' and spec[1] < 0 else None
+                        single = ProdCase(case.tz, case.seed)
+                        single.specs = {pid: spec}
+                        first = case.anchor.get(pid)
+                        single.queries = ([(pid, first)] if first is not None and has_unanchored(spec) else []) + \
+                            [(pid, seen[n] - 1), (pid, seen[n])]
+                        out.append((f'occurrence {n} of the underlying trigger fired twice: at {seen[n]} and at {r} '
+                                    f'[zone {case.tz}, {prod_sx(spec)[:160]}]', sig, single.to_json()))
+                        break
+                    seen[n] = r
+        return out
+
     def known_signature(self, case: ProdCase, pid: int, dt: int, res: str, msg: str) -> str | None:
         spec = case.specs[pid]
         if self.pid == 'C16' and res in ('err DIVERGED', 'err ValueError', 'err OverflowError') and _has_filtered_interval(spec):
@@ -323,13 +410,16 @@ class ProdProp:
 
     def check_case(self, run: Run, case: ProdCase) -> None:
         run.evaluations += len(case.queries)
+        run_idx: list[int] = []
         run.stats['inconclusive_watchdog'] = run.stats.get('inconclusive_watchdog', 0) + case.meta.get('inconclusive', 0)
         for (pid, dt), res in zip(case.queries, case.impl):
             run.nontrivial.add((case.tz, prod_sx(case.specs[pid]), dt))
             st = run.stats
             key = 'res_' + (res.split()[1] if res.startswith('err') else 'ok')
             st[key] = st.get(key, 0) + 1
-            msg = self.oracle(case, pid, dt, res)
+            pre = getattr(case, 'oracle_msgs', None)
+            msg = pre[len(run_idx)] if pre is not None else self.oracle(case, pid, dt, res)
+            run_idx.append(1)
             if msg:
                 single = ProdCase(case.tz, case.seed)
                 single.specs = {pid: case.specs[pid]}
@@ -337,6 +427,9 @@ class ProdProp:
                 single.queries = ([(pid, case.anchor[pid])] if case.anchor.get(pid, dt) != dt and has_unanchored(case.specs[pid]) else []) + [(pid, dt)]
                 run.findings.append(Finding('oracle', msg, single.to_json(),
                                             self.known_signature(case, pid, dt, res, msg)))
+        cm = getattr(case, 'case_msgs', None)
+        for msg, sig, rep in (cm if cm is not None else self.case_oracle(case)):
+            run.findings.append(Finding('oracle', msg, rep, sig))
         for sp in case.specs.values():
             for k in prod_kinds(sp):
                 run.stats['kind_' + k] = run.stats.get('kind_' + k, 0) + 1
@@ -385,6 +478,8 @@ class ProdProp:
 
     def cases(self, run: Run):
         n = {'quick': 60, 'thorough': 3000}[run.tier]
+        if self.pid == 'C16':
+            n = {'quick': 20, 'thorough': 600}[run.tier]
         base = run.seed * 1_000_003 + int(self.pid[1:]) * 7919
         if self.pid == 'C06':
             from tz import SHAPE_ZONES, zones
@@ -445,4 +540,10 @@ class ProdProp:
 def _build_worker(args):
     pid, seed, tier = args
     from registry import PROPS
-    return PROPS[pid].build(seed, tier)
+    prop = PROPS[pid]
+    case = prop.build(seed, tier)
+    # the oracles run in the worker too (they enumerate occurrence lists with zoneinfo / the underlying trigger)
+    case.oracle_msgs = [prop.oracle(case, p, dt, res) for (p, dt), res in zip(case.queries, case.impl)]
+    case.case_msgs = prop.case_oracle(case)
+    case.__dict__.pop('_occ_cache', None)
+    return case
